@@ -1,10 +1,7 @@
 //! mmv — worker binary of the mimium-rs property-testing harness.
 //! Driven by /verif/check (python).  Subcommands: plan, chunk, one, shrink, distinct, rule.
 
-mod engine;
-mod gens;
-mod props;
-mod runners;
+use mmv::{engine, props, runners};
 
 use engine::case::*;
 use engine::worker;
@@ -74,7 +71,7 @@ fn main() {
                 *v = cwd.join(v.as_str()).to_string_lossy().to_string();
             }
         };
-        for k in ["replay", "out", "journal", "hashes", "spill", "history"] {
+        for k in ["replay", "out", "journal", "hashes", "spill", "history", "file"] {
             if let Some(v) = m.get_mut(k) {
                 abs(v);
             }
@@ -157,6 +154,27 @@ fn main() {
         }
         let r = props::c19::together_here(&jobs);
         println!("\nMMVRESULT {}", Value::Array(enc(&r)));
+        return;
+    }
+    if cmd == "fuzzcase" {
+        // a cargo-fuzz artefact (raw fuzzer input) turned into a replay description + verdict
+        silence_stderr();
+        engine::panics::install_hook();
+        let tname = m.get("target").expect("--target").clone();
+        let data = std::fs::read(m.get("file").expect("--file")).expect("read fuzzer input");
+        let out = match mmv::fuzzentry::run(&tname, &data, m.contains_key("strict"), true) {
+            None => json!({"outcome": "undecodable"}),
+            Some(o) => {
+                let mut v: Value = worker::result_json(&o.result);
+                v["replay"] = o.replay;
+                v
+            }
+        };
+        println!("\nMMVRESULT {out}");
+        return;
+    }
+    if cmd == "fuzztargets" {
+        println!("{}", json!(mmv::fuzzentry::TARGETS.iter().map(|t| json!({"target": t.0, "property": t.1, "kind": format!("{:?}", t.2).to_lowercase(), "space": t.3})).collect::<Vec<_>>()));
         return;
     }
     if cmd == "diag" {
